@@ -28,6 +28,7 @@ type C16 struct {
 	Many    bool  // start from more than 100 pending batches on one chain (more than one page of a paginated walk)
 	PerChain bool // validator B has one orchestrator account on ethereum and another one on bsc
 	Heights bool  // external heights are observed (deposits claimed by all bonded validators), so batches carry real timeouts
+	Crowd      bool // 103 validators: more than one page (100) of confirmations under one store index
 	Superseded bool // the stake shifts (a second signer set is published) and the newer set's execution is observed while the first one is still inside the signed window
 }
 
@@ -60,6 +61,9 @@ func (c *C16) SeedPaths() [][]engine.Op {
 	if c.Many {
 		return [][]engine.Op{{engine.OpN("MkMany", "ethereum", 101)}}
 	}
+	if c.Crowd {
+		return [][]engine.Op{{engine.OpN("MkBatch", "ethereum"), engine.OpN("ConfirmCrowd", "ethereum", 0), engine.OpN("ConfirmCrowd", "ethereum", 2)}}
+	}
 	if c.Superseded {
 		// signer set 1 confirmed by A and B; the stake shifts, set 2 is published and its execution on ethereum observed
 		return [][]engine.Op{{engine.OpN("Confirm", "ethereum", 0, 0, 0, 0), engine.OpN("Confirm", "ethereum", 1, 1, 0, 0), engine.OpN("Shift"), engine.OpN("Next"), engine.OpN("ObserveSet")},
@@ -78,7 +82,13 @@ func (c *C16) Genesis() hub.Genesis {
 	if c.Keyless {
 		vals = c.Vals[:4]
 	}
-	g := StdGenesis(vals, []int64{10, 10, 0, 0}, []sdk.AccAddress{c.User, c.Stranger}, sdk.NewCoins(sdk.NewInt64Coin("hub", 1_000_000), sdk.NewInt64Coin("eth", 1_000_000)))
+	pw := []int64{10, 10, 0, 0}
+	if c.Crowd {
+		for len(pw) < len(vals) {
+			pw = append(pw, 1)
+		}
+	}
+	g := StdGenesis(vals, pw, []sdk.AccAddress{c.User, c.Stranger}, sdk.NewCoins(sdk.NewInt64Coin("hub", 1_000_000), sdk.NewInt64Coin("eth", 1_000_000)))
 	g.Staking[2].Power = 7
 	g.Staking[3].Power = 6
 	g.Staking[3].Unbonding = true
@@ -137,6 +147,13 @@ var c16Scope = []byte("scope-1")
 // 5 / 6 batch nonce 2 / 3 of the same token, 7 the batch of the second token (ethereum only)
 func (c *C16) Ops(s *HState) []engine.Op {
 	var ops []engine.Op
+	if c.Crowd {
+		// the crowd has confirmed in the seed; A and B may still do so, blocks pass
+		for v := 0; v < 2; v++ {
+			ops = append(ops, engine.OpN("Confirm", "ethereum", v, 0, 0, 0), engine.OpN("Confirm", "ethereum", v, 1, 2, 0))
+		}
+		return append(ops, engine.OpN("Next"))
+	}
 	for _, ch := range c.Chains {
 		ops = append(ops, engine.OpN("MkBatch", ch), engine.OpN("MkCall", ch))
 		for v := range c.Vals {
@@ -334,6 +351,14 @@ func (c *C16) Do(in *hub.Instance, gg Ghost, op engine.Op, st *engine.Step) {
 		st.Obs = fmt.Sprint(exists)
 	case "Confirm":
 		c.confirm(in, g, op, st)
+	case "ConfirmCrowd":
+		// every validator from the fifth on confirms the transaction (own account)
+		for v := 4; v < len(c.Vals); v++ {
+			var sub engine.Step
+			c.confirm(in, g, engine.OpN("Confirm", op.S[0], v, 0, op.I[0], 0), &sub)
+			st.Violations = append(st.Violations, sub.Violations...)
+		}
+		st.Obs = "crowd"
 	case "Shift":
 		// a delegation doubles (or halves back) validator A's stake: more than 5% of the normalised power moves
 		p := int64(20)
@@ -695,6 +720,14 @@ func init() {
 		rot.Chains = []string{"ethereum"}
 		pc := NewC16()
 		pc.PerChain = true
+		crowd := NewC16()
+		crowd.Crowd = true
+		crowd.Chains = []string{"ethereum"}
+		for i := 4; i < 103; i++ {
+			crowd.Vals = append(crowd.Vals, hub.NewValidator(fmt.Sprintf("crowd%03d", i)))
+		}
+		cfgCrowd := cfg
+		cfgCrowd.MaxDepth = 2
 		sup := NewC16()
 		sup.Superseded = true
 		sup.Chains = []string{"ethereum"}
@@ -709,6 +742,7 @@ func init() {
 				{Name: "observed external heights, a batch with a real timeout", Spec: hts, Cfg: cfg},
 				{Name: "a second signer set is published and observed while the first, confirmed one is still inside the signed window", Spec: sup, Cfg: cfg},
 				{Name: "101 pending batches of one token", Spec: mny, Cfg: cfgMany},
+				{Name: "103 validators: 99 confirmations of one signer set and of one batch, then A's and B's", Spec: crowd, Cfg: cfgCrowd},
 				{Name: "operator addresses of 32 bytes (A) and 0xff..ff (B)", Spec: odd, Cfg: cfg}}, []string{
 			"validators A, B bonded, C unbonded, D unbonding (all with registered keys); batches: up to three of one token plus one of a second token on ethereum; signers: validator account, orchestrator, stranger; tx refs: existing/unknown signer set, existing/unknown batch, contract call; claimed external signer own/other's; a confirmation built for the other chain's batch; duplicates by repetition",
 			"second case: the chain has already issued 253 batch nonces (genesis field LastOutgoingBatchTxNonce), so that the next batches straddle a byte boundary of the nonce inside the signature store keys",
